@@ -7,7 +7,10 @@ the three `DialOpts` builders and from `handle_transport_event` (incoming connec
 Swarm on every thread.  Model: one shared counter; a schedule is the sequence of thread ids taking
 the next *atomic step*; two step semantics — `rmw` (what the code does: one atomic
 read-modify-write returns `c` and sets `c+1`) and `loadStore` (what a racy rewrite would do: a
-load step, later a store step).  `usize` wrap-around after 2^64 allocations is out of scope.
+load step, later a store step).  The `rmw`/`loadStore` machines use an unbounded `Nat` counter;
+`stepW`/`runW` model the counter as the code has it — a `w`-bit `usize` whose `fetch_add` wraps
+modulo `2^w` (std: "This operation wraps around on overflow") — so the theorems can say exactly
+how far uniqueness reaches (`2^w` allocations) and where it ends (allocation `2^w + 1`).
 -/
 namespace C03
 
@@ -36,6 +39,14 @@ def run (sh : Shape) (s : St) (sched : List Nat) : St := sched.foldl (step sh) s
 /-- ids in allocation order -/
 def ids (s : St) : List Nat := (s.out.map (·.2)).reverse
 
+/-- one atomic `fetch_add(1)` of thread `t` on a `w`-bit counter: returns the old value, stores
+`old + 1` wrapped modulo `2^w` -/
+def stepW (w : Nat) (s : St) (t : Nat) : St :=
+  { s with ctr := (s.ctr + 1) % 2 ^ w, out := (t, s.ctr) :: s.out }
+
+/-- run an interleaving on the `w`-bit counter -/
+def runW (w : Nat) (s : St) (sched : List Nat) : St := sched.foldl (stepW w) s
+
 /-- round-robin schedule of `t` threads × `k` allocations (used by the driver to run the model) -/
 def roundRobin (t k : Nat) : List Nat := (List.range k).flatMap fun _ => List.range t
 
@@ -54,6 +65,9 @@ def summary (l : List Nat) : Nat × Nat × Nat :=
 
 /-- Spec, judged on the implementation's summary: no id was handed out twice -/
 def specStress (n distinct : Nat) : Bool := n == distinct
+
+/-- Spec for a run across the wrap point (far fewer than `2^w` allocations): no id twice -/
+def specWrap (ids : List String) : Bool := ids.eraseDups.length == ids.length
 
 /-- Spec for the allocation shape reported from the source: one `fetch_add(1, ..)` on a static atomic -/
 def specShape (toks : List String) : Bool := toks == ["shape", "rmw", "add=1", "static=1"]
